@@ -266,41 +266,69 @@ func c16CalDate(c c16Case) (string, string) {
 	if err != nil {
 		return "client", err.Error()
 	}
-	q := &caldav.CalendarQuery{CompFilter: caldav.CompFilter{Name: "VCALENDAR", Comps: []caldav.CompFilter{{Name: "VEVENT", Start: t, End: t2}}}}
+	// every site at which the client writes an instant: component time-range, property time-range, expand
+	q := &caldav.CalendarQuery{
+		CompRequest: caldav.CalendarCompRequest{Name: "VCALENDAR", AllProps: true, AllComps: true, Expand: &caldav.CalendarExpandRequest{Start: t, End: t2}},
+		CompFilter: caldav.CompFilter{Name: "VCALENDAR", Comps: []caldav.CompFilter{{Name: "VEVENT", Start: t, End: t2,
+			Props: []caldav.PropFilter{{Name: "DTSTART", Start: t, End: t2}}}}}}
 	if _, err := cl.QueryCalendar(context.Background(), "/u/c/k/", q); err != nil {
 		return "client", err.Error()
 	}
-	root, err := indep.Parse(cap.Body)
-	if err != nil {
-		return "client-xml", err.Error()
-	}
-	var tr *indep.Node
-	var find func(n *indep.Node)
-	find = func(n *indep.Node) {
-		if n.Is("urn:ietf:params:xml:ns:caldav", "time-range") {
-			tr = n
-		}
-		for _, ch := range n.Children {
-			find(ch)
-		}
-	}
-	find(root)
-	if tr == nil {
-		return "client-xml", "no time-range element"
-	}
-	for _, a := range []struct {
-		name string
-		want time.Time
-	}{{"start", t}, {"end", t2}} {
-		v, _ := tr.Attr("", a.name)
-		got, err := time.Parse("20060102T150405Z", v)
+	queryBody := append([]byte(nil), cap.Body...)
+	check := func(body []byte, wantRanges, wantExpands int) (string, string) {
+		root, err := indep.Parse(body)
 		if err != nil {
-			return "encode-not-rfc5545-utc", fmt.Sprintf("%s=%q", a.name, v)
+			return "client-xml", err.Error()
 		}
-		if got.Unix() != a.want.Unix() {
-			return "encode-altered", fmt.Sprintf("%s=%q denotes %v, caller meant %v (%v)", a.name, v, got.UTC(), a.want.UTC(), a.want)
+		var found []*indep.Node
+		var find func(n *indep.Node)
+		find = func(n *indep.Node) {
+			if n.Is("urn:ietf:params:xml:ns:caldav", "time-range") || n.Is("urn:ietf:params:xml:ns:caldav", "expand") {
+				found = append(found, n)
+			}
+			for _, ch := range n.Children {
+				find(ch)
+			}
 		}
+		find(root)
+		nr, ne := 0, 0
+		for _, tr := range found {
+			if tr.Local == "expand" {
+				ne++
+			} else {
+				nr++
+			}
+			for _, a := range []struct {
+				name string
+				want time.Time
+			}{{"start", t}, {"end", t2}} {
+				v, _ := tr.Attr("", a.name)
+				got, err := time.Parse("20060102T150405Z", v)
+				if err != nil {
+					return "encode-not-rfc5545-utc", fmt.Sprintf("%s %s=%q", tr.Local, a.name, v)
+				}
+				if got.Unix() != a.want.Unix() {
+					return "encode-altered", fmt.Sprintf("%s %s=%q denotes %v, caller meant %v (%v)", tr.Local, a.name, v, got.UTC(), a.want.UTC(), a.want)
+				}
+			}
+		}
+		if nr != wantRanges || ne != wantExpands {
+			return "client-xml", fmt.Sprintf("%d time-range and %d expand elements, want %d and %d", nr, ne, wantRanges, wantExpands)
+		}
+		return "", ""
 	}
+	if cl, d := check(queryBody, 2, 1); cl != "" {
+		return cl, d
+	}
+	// the expansion range of a multiget
+	cap.Body = nil
+	if _, err := cl.MultiGetCalendar(context.Background(), "/u/c/k/", &caldav.CalendarMultiGet{Paths: []string{"/u/c/k/o.ics"}, CompRequest: q.CompRequest}); err != nil {
+		return "client", err.Error()
+	}
+	if cl, d := check(cap.Body, 0, 1); cl != "" {
+		return "multiget-" + cl, d
+	}
+	cap.Body = queryBody
 	// the same bytes into the server
 	b := &harness.CalBackend{Principal: "/u/", HomeSet: "/u/c/"}
 	resp := harness.Serve(&caldav.Handler{Backend: b}, harness.Req{Method: "REPORT", Path: "/u/c/k/", Header: map[string]string{"Content-Type": "application/xml"}, Body: string(cap.Body)})
@@ -313,6 +341,12 @@ func c16CalDate(c c16Case) (string, string) {
 			f := cq.CompFilter.Comps[0]
 			if f.Start.Unix() != t.Unix() || f.End.Unix() != t2.Unix() {
 				return "decode-altered", fmt.Sprintf("backend got %v..%v want %v..%v", f.Start.UTC(), f.End.UTC(), t.UTC(), t2.UTC())
+			}
+			if len(f.Props) != 1 || f.Props[0].Start.Unix() != t.Unix() || f.Props[0].End.Unix() != t2.Unix() {
+				return "decode-altered", fmt.Sprintf("backend got property ranges %+v want %v..%v", f.Props, t.UTC(), t2.UTC())
+			}
+			if e := cq.CompRequest.Expand; e == nil || e.Start.Unix() != t.Unix() || e.End.Unix() != t2.Unix() {
+				return "decode-altered", fmt.Sprintf("backend got expand %+v want %v..%v", e, t.UTC(), t2.UTC())
 			}
 			return "", ""
 		}
